@@ -9,6 +9,7 @@ import SspModel.Model.Esc
 import SspModel.Model.IFMR
 import SspModel.Model.Schedule
 import SspModel.Model.Extract
+import SspModel.Model.Validate
 /-!
 # Line-protocol driver: one op per line in, one line out. Doubles cross as 16-hex-digit bit patterns.
 Runs the *same* model terms the theorems are about, at the `Float` instance.
@@ -201,6 +202,23 @@ def step (ws : List String) : String :=
       | _ => []
     let v := views (parseHex factor) (parseHex nmin) (rows (rest.map parseHex))
     s!"{viewNms v} {viewNmr v} | {fl (viewM v)} | {fl (viewN v)} | {fl (viewm v)} | {" ".intercalate ((viewTypes v).map toString)}"
+  | "validate" :: rate :: nk :: kk :: bk :: wk :: bink :: hasF :: rest =>
+    let b (x : String) : Bool := x == "1"
+    let (fs, r1) := takeList rest
+    match r1 with
+    | nout :: r2 =>
+      let (breaks, r3) := takeList r2
+      match r3 with
+      | [nsl, wdHi, bhLo] =>
+        let req : Request Float := ⟨if rate == "callable" then none else some (parseHex rate), b nk, b kk, b bk, b wk, b bink,
+          if b hasF then some fs else none, nout.toNat!, breaks, nsl.toNat!, parseHex wdHi, parseHex bhLo⟩
+        match validate req with
+        | .ok _ => "ok"
+        | .error _ => "ValueError"
+      | _ => "bad-op"
+    | _ => "bad-op"
+  | "lineValid" :: e :: sl :: sc :: lo :: hi :: [] =>
+    toString (lineValid (parseHex e) (parseHex sl) (parseHex sc) (parseHex lo) (if hi == "inf" then none else some (parseHex hi)))
   | ["mrem", d, mb, mt] => toHex (Mrem (parseHex d) (parseHex mb) (parseHex mt))
   | ["sigmoid", slope, scale, m] => toHex (sigmoidRet (parseHex slope) (parseHex scale) (parseHex m))
   | ["erf", x] => toHex (Scalar.erf (parseHex x))
